@@ -14,9 +14,12 @@ from ..world import World, digest_obj, walk_dirs, walk_files, write_tree
 
 U = ["a", "b", "s/a", "s/é", "s/t/a"]
 BIG = {"big1": b"1" * (2**20 + 1), "big2": b"2" * (2**20 + 1)}
-CONTENTS = dict(CONTENTS, **BIG)
+from ..lab import SPECIAL, SPECIAL_TREE  # noqa: E402
+
+CONTENTS = dict(CONTENTS, **BIG, **SPECIAL)
 
 EXTRA_TREES = [
+    dict(SPECIAL_TREE),                                                   # special names (see lab.SPECIAL_NAMES)
     {"a\\b": "x", "a/b": "crlf", "s/t\\u": "bin"},                       # backslash is a legal name character
     {"run/a": "x", "run2/b": "crlf", "sub/a/f": "x", "sub/ab/g": "bin"},   # sibling names sharing a string prefix
     {"L1": "big1", "L2": "big2", "a": "x", "z": "crlf"},                   # two large files route through the pool
